@@ -288,6 +288,13 @@ func (la *lockAnalysis) ownerField(v ssa.Value) *types.Var {
 	if f != nil && la.fields[f] {
 		return f
 	}
+	if f != nil {
+		for g := range la.fields {
+			if sameField(f, g) {
+				return g
+			}
+		}
+	}
 	return nil
 }
 
